@@ -30,6 +30,9 @@ CHECKS = {
  'C11': ('exploration',
          "Held on the executions explored: stop(SUCCESS/ERROR/CANCELLED, msg) injected at unit boundaries on the root or a nested execution; monitors: requested final state/message/output.result held to the end, no task inserted after the stop, every unfinished descendant of a cancelled execution CANCELLED with its parent task, each finished sub-workflow reported to its parent exactly once, late results change nothing.",
          "runtime monitoring: finality / no-insert-after-stop / tree-consistency monitors over recorded row history and RPC sends under stop injection at every unit boundary"),
+ 'C14': ('exploration',
+         "Held on the inputs explored: structure-aware and text-level mutants of every bundled YAML definition and of generated workflows, each through the workflow-list / workbook / action-list parsers with validation on and a share through the definition services (create/update with the DB); oracle: accepted or a declared 4xx definition error, never another exception nor a call over the time budget; for accepted definitions the specification rebuilt from its stored dict is equal through the public getters and every member cut out of a workbook text parses to the member written in the workbook.",
+         "runtime monitoring: outcome-class / round-trip / slicing monitors on the real parser and service entry points under structure-aware fuzzing, with faulthandler watchdogs for hangs"),
  'C18': ('exploration',
          "Held on the populations explored: random populations of execution trees (states, ages with ties, projects, nesting) x settings of older_than / max_finished_executions / batch_size / ignored_states incl. unset; one call of the real run_execution_expiration_policy compared with a 25-line reference of what must remain, plus tree completeness of survivors, whole-tree deletion, no ineligible deletion, no newer-deleted-while-older-kept, termination within a fetch budget.",
          "runtime monitoring: reference-model monitor over row sets before/after the real policy run on generated populations"),
@@ -37,7 +40,8 @@ CHECKS = {
          "Held on the URLs explored: a catalogue of addresses inside/outside the denied networks rendered from their numeric value in every textual form (decimal, octal, hex, short, mixed radix, IPv6 spellings, IPv4-mapped IPv6, zone ids, case), fake-resolver names with single/multiple/mixed answers, schemes, userinfo, ports, parser-differential candidates, under default and operator-modified denied_cidrs / allowed_hosts; validate_url must refuse what the statement demands (ground truth by construction) and an audit-hook egress sanitizer under the real requests stack driven by the real HTTPAction / MistralHTTPAction / WebhookPublisher must never see a connect to a denied address nor a client call for a refused URL.",
          "runtime monitoring: sys.addaudithook egress sanitizer (socket.connect / getaddrinfo) under the real HTTP client + ground-truth-by-construction oracle on validate_url"),
 }
-NOTES = {'C18': "Trusted base: the reference in mvf/checks/c18.py, sqlite with foreign keys on (cascade deletes as on server databases), virtual clock.",
+NOTES = {'C14': "Trusted base: PyYAML for building the mutants and the expected workbook members, the fingerprint function over public getters. REST entry points are exercised by the C16 harness.",
+         'C18': "Trusted base: the reference in mvf/checks/c18.py, sqlite with foreign keys on (cascade deletes as on server databases), virtual clock.",
          'C19': "Trusted base: the URL catalogue's numeric ground truth, the fake resolver table, CPython audit events for socket.connect. No network: redirects and DNS rebinding are not exercised (every connect is aborted by the sanitizer)."}
 
 
